@@ -12,8 +12,10 @@ attribute [-simp] List.getD_eq_getElem?_getD
 inductive SStepS (s : Nat) : World → World → Prop
   | refl (w : World) : SStepS s w w
   | setS (w : World) (x : Sub) : SStepS s w (setS w s x)
-  | setC (w : World) (x c : Conn) : getC w x.pid s = some c → x.sid = s → x.sAtt = c.sAtt → SStepS s w (setC w x)
-  | pushC (w : World) (x : Conn) : x.sid = s → x.sAtt = false → getC w x.pid s = none → SStepS s w (pushC w x)
+  | setC (w : World) (x c : Conn) : getC w x.pid s = some c → x.sid = s → x.sAtt = c.sAtt →
+      ((c.sAtt = true ∨ c.rAtt = true) → (x.sAtt = true ∨ x.rAtt = true)) → SStepS s w (setC w x)
+  | pushC (w : World) (x : Conn) : x.sid = s → x.sAtt = false → x.rAtt = true → getC w x.pid s = none →
+      SStepS s w (pushC w x)
   | dropC (w : World) (p : Nat) : SStepS s w (dropC w p s)
   | panic (w : World) : SStepS s w { w with panicked := true }
   | trans {a b c : World} : SStepS s a b → SStepS s b c → SStepS s a c
@@ -54,36 +56,52 @@ theorem SStepS.facts {s : Nat} {w w' : World} (h : SStepS s w w') :
     w'.cfg = w.cfg ∧ w'.pubReg = w.pubReg ∧ w'.subReg = w.subReg ∧ w'.pubs = w.pubs ∧
     w'.conns.filter (fun c => c.sid ≠ s) = w.conns.filter (fun c => c.sid ≠ s) ∧
     w'.subs.filter (fun e => e.1 ≠ s) = w.subs.filter (fun e => e.1 ≠ s) ∧
-    (∀ p c', getC w' p s = some c' → c'.sAtt = true → ∃ c, getC w p s = some c ∧ c.sAtt = true) := by
+    (∀ p c', getC w' p s = some c' → c'.sAtt = true → ∃ c, getC w p s = some c ∧ c.sAtt = true) ∧
+    ((∀ p c, getC w p s = some c → c.sAtt = true ∨ c.rAtt = true) →
+      ∀ p c', getC w' p s = some c' → c'.sAtt = true ∨ c'.rAtt = true) := by
   induction h with
-  | refl w => exact ⟨rfl, rfl, rfl, rfl, rfl, rfl, fun s c' h1 h2 => ⟨c', h1, h2⟩⟩
-  | setS w x => exact ⟨rfl, rfl, rfl, rfl, rfl, filter_map_upd_sub _ _ _, fun s c' h1 h2 => ⟨c', h1, h2⟩⟩
-  | setC w x c hc hx hr =>
-    refine ⟨rfl, rfl, rfl, rfl, filter_map_upd_conn_s _ _ _ hx, rfl, ?_⟩
-    intro p c' h1 h2
+  | refl w => exact ⟨rfl, rfl, rfl, rfl, rfl, rfl, fun s c' h1 h2 => ⟨c', h1, h2⟩, fun h => h⟩
+  | setS w x => exact ⟨rfl, rfl, rfl, rfl, rfl, filter_map_upd_sub _ _ _, fun s c' h1 h2 => ⟨c', h1, h2⟩, fun h => h⟩
+  | setC w x c hc hx hr hatt =>
     have hc' : getC w x.pid x.sid = some c := by rw [hx]; exact hc
-    rw [getC_setC_self hc' x ⟨rfl, rfl⟩] at h1
-    by_cases hs : p = x.pid ∧ s = x.sid
-    · simp [hs] at h1; subst h1
-      obtain ⟨rfl, _⟩ := hs
-      exact ⟨c, hc, hr ▸ h2⟩
-    · simp [hs] at h1
-      exact ⟨c', h1, h2⟩
-  | pushC w x hx hr hn =>
-    refine ⟨rfl, rfl, rfl, rfl, ?_, rfl, ?_⟩
+    refine ⟨rfl, rfl, rfl, rfl, filter_map_upd_conn_s _ _ _ hx, rfl, ?_, ?_⟩
+    · intro p c' h1 h2
+      rw [getC_setC_self hc' x ⟨rfl, rfl⟩] at h1
+      by_cases hs : p = x.pid ∧ s = x.sid
+      · simp [hs] at h1; subst h1
+        obtain ⟨rfl, _⟩ := hs
+        exact ⟨c, hc, hr ▸ h2⟩
+      · simp [hs] at h1
+        exact ⟨c', h1, h2⟩
+    · intro hall p c' h1
+      rw [getC_setC_self hc' x ⟨rfl, rfl⟩] at h1
+      by_cases hs : p = x.pid ∧ s = x.sid
+      · simp [hs] at h1; subst h1
+        exact hatt (hall _ c hc)
+      · simp [hs] at h1
+        exact hall p c' h1
+  | pushC w x hx hr hra hn =>
+    have hn' : getC w x.pid x.sid = none := by rw [hx]; exact hn
+    refine ⟨rfl, rfl, rfl, rfl, ?_, rfl, ?_, ?_⟩
     · show (w.conns ++ [x]).filter _ = _
       rw [List.filter_append]
       simp [hx]
     · intro p c' h1 h2
-      have hn' : getC w x.pid x.sid = none := by rw [hx]; exact hn
       rw [getC_pushC w x p s hn'] at h1
       by_cases hs : p = x.pid ∧ s = x.sid
       · simp [hs] at h1; subst h1
         rw [hr] at h2; cases h2
       · simp [hs] at h1
         exact ⟨c', h1, h2⟩
+    · intro hall p c' h1
+      rw [getC_pushC w x p s hn'] at h1
+      by_cases hs : p = x.pid ∧ s = x.sid
+      · simp [hs] at h1; subst h1
+        exact .inr hra
+      · simp [hs] at h1
+        exact hall p c' h1
   | dropC w p =>
-    refine ⟨rfl, rfl, rfl, rfl, ?_, rfl, ?_⟩
+    refine ⟨rfl, rfl, rfl, rfl, ?_, rfl, ?_, ?_⟩
     · show (w.conns.filter _).filter _ = _
       rw [List.filter_filter]
       apply List.filter_congr
@@ -95,19 +113,27 @@ theorem SStepS.facts {s : Nat} {w w' : World} (h : SStepS s w w') :
       · simp [hs] at h1
       · simp [hs] at h1
         exact ⟨c', h1, h2⟩
-  | panic w => exact ⟨rfl, rfl, rfl, rfl, rfl, rfl, fun s c' h1 h2 => ⟨c', h1, h2⟩⟩
+    · intro hall p' c' h1
+      rw [getC_dropC'] at h1
+      by_cases hs : p' = p
+      · simp [hs] at h1
+      · simp [hs] at h1
+        exact hall p' c' h1
+  | panic w => exact ⟨rfl, rfl, rfl, rfl, rfl, rfl, fun s c' h1 h2 => ⟨c', h1, h2⟩, fun h => h⟩
   | trans _ _ ih1 ih2 =>
-    obtain ⟨a1, a2, a3, a4, a6, a7, a8⟩ := ih1
-    obtain ⟨b1, b2, b3, b4, b6, b7, b8⟩ := ih2
-    refine ⟨b1.trans a1, b2.trans a2, b3.trans a3, b4.trans a4, b6.trans a6, b7.trans a7, ?_⟩
+    obtain ⟨a1, a2, a3, a4, a6, a7, a8, a9⟩ := ih1
+    obtain ⟨b1, b2, b3, b4, b6, b7, b8, b9⟩ := ih2
+    refine ⟨b1.trans a1, b2.trans a2, b3.trans a3, b4.trans a4, b6.trans a6, b7.trans a7, ?_, fun hall => b9 (a9 hall)⟩
     intro p c' h1 h2
     obtain ⟨c1, g1, g2⟩ := b8 p c' h1 h2
     exact a8 p c1 g1 g2
 
 theorem SStepS.setC' {p s : Nat} {w : World} {c : Conn} (hc : getC w p s = some c) (x : Conn)
-    (h1 : x.pid = c.pid) (h2 : x.sid = c.sid) (h3 : x.sAtt = c.sAtt) : SStepS s w (Iox2.PubSub.setC w x) := by
+    (h1 : x.pid = c.pid) (h2 : x.sid = c.sid) (h3 : x.sAtt = c.sAtt)
+    (h4 : (c.sAtt = true ∨ c.rAtt = true) → (x.sAtt = true ∨ x.rAtt = true)) :
+    SStepS s w (Iox2.PubSub.setC w x) := by
   have hk := getC_key hc
-  exact .setC w x c (by rw [h1, hk.1]; exact hc) (h2.trans hk.2) h3
+  exact .setC w x c (by rw [h1, hk.1]; exact hc) (h2.trans hk.2) h3 h4
 
 theorem detachReceiver_SS (w : World) (p s : Nat) : SStepS s w (detachReceiver w p s) := by
   rw [detachReceiver_eq]
@@ -115,7 +141,7 @@ theorem detachReceiver_SS (w : World) (p s : Nat) : SStepS s w (detachReceiver w
   · exact .refl _
   next c hc =>
     split
-    · exact .setC' hc _ rfl rfl rfl
+    next hr => exact .setC' hc _ rfl rfl rfl (fun _ => .inl hr)
     · exact .dropC _ _
 
 theorem subDropConn_SS (w : World) (s key : Nat) : SStepS s w (subDropConn w s key) := by
@@ -163,8 +189,8 @@ theorem subPrepareRemoval_SS (w : World) (s slot : Nat) : SStepS s w (subPrepare
 theorem subAttach_SS (w : World) (s p : Nat) (S : Sub) : SStepS s w (subAttach w s p S) := by
   unfold subAttach
   split
-  next c hc => exact .setC' hc _ rfl rfl rfl
-  next hc => exact .pushC _ _ rfl rfl hc
+  next c hc => exact .setC' hc _ rfl rfl rfl (fun _ => .inr rfl)
+  next hc => exact .pushC _ _ rfl rfl rfl hc
 
 theorem subCreateConn_SS (w : World) (s slot p : Nat) : SStepS s w (subCreateConn w s slot p) := by
   rw [subCreateConn_eq]
